@@ -392,10 +392,25 @@ class P(Prop):
         ("TracklibVerif.Props.C01", "TV.C01.prims_keep_coords", "create/update/remove/setObs on a feature name never touch X, Y, Z, T"),
         ("TracklibVerif.Props.C01", "TV.C01.step_frame", "no side effects: for every API call (operators, operate(str) on any RPN; returning or raising) a name it does not designate - feature, x, y, z, t or idx - reads as before and stays listed/unlisted"),
         ("TracklibVerif.Props.C01", "TV.C01.sum_keeps_table", "the non-void aggregate SUM leaves the whole table as it was"),
+        ("TracklibVerif.Props.C01", "TV.C01.binaryVoid_read_back", "when ADDER/SUBSTRACTER/MULTIPLIER returns temp, the output feature reads exactly temp (created or overwritten, even if it is also an input)"),
+        ("TracklibVerif.Props.C01", "TV.C01.scalarVoid_read_back", "the same for SCALAR_ADDER/SCALAR_SUBSTRACTER/SCALAR_REV_SUBSTRACTER/SCALAR_MULTIPLIER"),
+        ("TracklibVerif.Props.C01", "TV.C01.unaryVoid_read_back", "the same for INTEGRATOR/DIFFERENTIATOR"),
         ("TracklibVerif.Props.C01", "TV.C01.no_temporaries", "after operate(str) no listed name starts with '#', whether evaluation returned or raised"),
     ]
     partial = []
-    open_statements = []
+    open_statements = [
+        "values: WHICH numbers an operator or an expression computes (a+b, running sums, NaN propagation, precedence) is not stated here - "
+        "the theorems say where they are written and that nothing else moves; expression values are property C02's; here they are covered by the "
+        "correspondence (model at Float = same IEEE operations) and by the oracle's direct recomputation",
+        "read-back of the result of an '=' expression under its left-hand side is proved only through the refinement (the specification table runs the "
+        "same stack machine), not as a closed formula",
+        "list initialisers shorter than the track (Python raises IndexError mid-way and leaves a misaligned table) are outside OpOK: "
+        "mirrored by the model, compared in the 'malformed' stream, not covered by the theorems or the oracle",
+        "assignment to 't', 'timestamp' as an operand, operators / ^ @ & $ < > % ! in expressions, and tables that are already misaligned are outside the model",
+    ]
+    # Python leaves a misaligned table when a list initialiser is shorter than the track. DESIGN.md section 5 C01 declares
+    # this out of the property's domain; set to True to have the oracle report it (class "short-list-initialiser").
+    SHORT_LIST_IS_FINDING = False
     modelled = ("Track.createAnalyticalFeature / updateAnalyticalFeature / removeAnalyticalFeature / getAnalyticalFeature / "
                 "getObsAnalyticalFeature / setObsAnalyticalFeature / hasAnalyticalFeature / addAnalyticalFeature / __setitem__ / "
                 "setX|Y|ZFromAnalyticalFeature / operate (operator objects and str) / __applyOperation (= + - *) / __evaluateRPN / "
@@ -831,6 +846,11 @@ class P(Prop):
         ops = case["ops"]
         for k, op in enumerate(ops):
             if case["kind"] == "malformed" and k == len(ops) - 1:
+                if self.SHORT_LIST_IS_FINDING:
+                    ob = out["steps"][k]
+                    if any(l != len(ob["names"]) for l in ob["rowlens"]):
+                        return "after call %d %s (%s): %d names listed but the observations carry %s values" % (
+                            k, op, ob["out"], len(ob["names"]), ob["rowlens"])
                 return None                # list initialiser shorter than the track: outside the property's domain
             ob = out["steps"][k]
             where = "after call %d %s (%s): " % (k, op, ob["out"])
@@ -889,6 +909,14 @@ class P(Prop):
             for cn in "XYZT":
                 if not close(ob[cn], getattr(tab, cn)):
                     return where + "%s is %s, expected %s" % (cn, ob[cn], getattr(tab, cn))
+        return None
+
+    def classify(self, case, impl_out, msg):
+        """the only class: the failing call is create/update/bracket assignment with a list shorter than the track"""
+        ops = case.get("ops") or []
+        if case.get("kind") == "malformed" and ops and ops[-1][0] in ("create", "update", "setitem") \
+                and ops[-1][2] == "l" and len(ops[-1][3]) < case["n"]:
+            return "short-list-initialiser"
         return None
 
     # ---------------------------------------------------------------- shrinking / search
